@@ -124,7 +124,7 @@ Qed.
 Lemma internal_run_bounded evs : forall s s',
   forallb internal evs = true -> run s evs = Some s' -> length evs + measure s' <= measure s.
 Proof.
-  induction evs as [|e r IH]; intros s s' Hi Hr; cbn in *.
+  induction evs as [|e r IH]; intros s s' Hi Hr; cbn [run forallb length] in *.
   - injection Hr as <-. lia.
   - apply andb_true_iff in Hi as [Hie Hir]. destruct (step s e) as [s1|] eqn:Hs; try discriminate.
     pose proof (measure_decreases _ _ _ Hie Hs). specialize (IH _ _ Hir Hr). lia.
